@@ -214,6 +214,7 @@ def _hows():
         "IO.rm_format/plain": (False, False, lambda s, tags, base: BufferedIO(formatter=plain(tags)).remove_format(s)),
         "O.write/plain": (False, False, out_write(plain)),
         "O.write/noansi": (False, False, out_write(ansi)),
+        "O.write/plain-ansi": (False, False, out_write(plain, True)),   # PlainFormatter on a stream that reports ANSI support
         "IO.write/plain": (False, False, io_write(plain)),
         "IO.error/plain": (False, False, io_error(plain)),
         "IO.write/noansi": (False, False, io_late("write")),
@@ -403,6 +404,88 @@ def random_history(rng, n):
     return {"part": "hist", "init": init, "ops": ops}
 
 
+# ---- (a) formatter objects are independent: a style added to one default formatter is unknown to every other one
+PAIR_STYLES = {"k9": {"named": True, "name": "k9", "sup": "added", "fg": "magenta", "bg": "none", "at": ["underline"]},
+               "hl": {"named": True, "name": "hl", "sup": "added", "fg": "none", "bg": "none", "at": ["bold"]},
+               "zz": {"named": True, "name": "zz", "sup": "added", "fg": "cyan", "bg": "black", "at": []}}
+PAIR_ROUTES = {"plain": ["P", "bio", "biosec"], "ansi": ["A", "bioA"]}
+
+
+def pair_msg(names, known):
+    """<n1>1<n2>..</n2></n1>2 with each tag as the rendering formatter must read it: a registered style if it was added
+    to THAT formatter, an unknown tag - text - otherwise"""
+    msg = []
+    for n in names:
+        msg.append({"k": "open", "tag": PAIR_STYLES[n]} if n in known else {"k": "unk", "lit": list("<%s>" % n)})
+        msg.append(ONE)
+    for n in reversed(names):
+        msg.append({"k": "close", "tag": PAIR_STYLES[n]} if n in known else {"k": "unk", "lit": list("</%s>" % n)})
+    msg.append(TWO)
+    return msg
+
+
+def run_pair(case):
+    """case = {kinds: [plain|ansi per formatter], routes: [how each formatter exists: P PlainFormatter(), A AnsiFormatter(),
+    bio BufferedIO(), biosec BufferedIO().section(), bioA BufferedIO(forced ANSI formatter)], ops: [build(f) | add(f, name) |
+    render(f, names)]} - all formatters are built WITHOUT a style set.  One MarkupTrace event per render."""
+    from clikit.formatter import AnsiFormatter, PlainFormatter
+    from clikit.io import BufferedIO
+
+    objs, known, evs = {}, {}, []
+    for op in case["ops"]:
+        f = op["f"]
+        route = case["routes"][f - 1]
+        try:
+            if op["op"] == "build":
+                objs[f] = {"P": lambda: PlainFormatter(), "A": lambda: AnsiFormatter(), "bio": lambda: BufferedIO(),
+                           "biosec": lambda: BufferedIO().section(),
+                           "bioA": lambda: BufferedIO(formatter=AnsiFormatter(forced=True))}[route]()
+                known[f] = set()
+                continue
+            o = objs[f]
+            fmt = o if route in ("P", "A") else o.formatter
+            if op["op"] == "add":
+                fmt.add_style(clikit_style(PAIR_STYLES[op.get("name", "k9")]))
+                known[f].add(op.get("name", "k9"))
+                continue
+        except Exception as e:  # noqa
+            evs.append({"msg": [], "base": [], "col": False, "how": "pair-" + op["op"], "claim": "all", "res": type(e).__name__, "toks": []})
+            continue
+        msg = pair_msg(op.get("names", ["k9"]), known[f])
+        ev = {"msg": msg, "base": [], "col": case["kinds"][f - 1] == "ansi", "how": "pair-" + route, "claim": "all", "res": "ok", "toks": []}
+        try:
+            if route in ("P", "A"):
+                r = o.format(markup(msg))
+            else:
+                n = len(o.fetch_output())
+                o.write(markup(msg))
+                r = o.fetch_output()[n:]
+            ev["toks"] = tokenise(r)
+        except Exception as e:  # noqa
+            ev["res"] = type(e).__name__
+        evs.append(ev)
+    return evs
+
+
+def random_pair(rng):
+    nf = rng.randint(2, 3)
+    kinds = [rng.choice(["plain", "plain", "ansi"]) for _ in range(nf)]
+    routes = [rng.choice(PAIR_ROUTES[k]) for k in kinds]
+    ops, built = [], []
+    for _ in range(rng.randint(4, 10)):
+        f = rng.randint(1, nf)
+        if f not in built:
+            ops.append({"op": "build", "f": f})
+            built.append(f)
+        elif rng.random() < 0.4:
+            ops.append({"op": "add", "f": f, "name": rng.choice(sorted(PAIR_STYLES))})
+        else:
+            ops.append({"op": "render", "f": f, "names": rng.sample(sorted(PAIR_STYLES), rng.randint(1, 2))})
+    for f in built:
+        ops.append({"op": "render", "f": f, "names": sorted(PAIR_STYLES)[:2]})
+    return {"part": "pair", "kinds": kinds, "routes": routes, "ops": ops}
+
+
 def norm(x):
     return json.dumps(x, sort_keys=True)
 
@@ -485,6 +568,35 @@ def run_markup(ctx, quick):
         cases.append(case)
         ctx.count()
         ctx.nontriv(("rndhist", i))
+
+    # ---- (a) two formatters built without a style set: add_style on one must not reach the other
+    r = ctx.model(MSPEC, "MC_MarkupPair", "MC_MarkupPair.cfg", name="markup: independent formatter objects", workers=8)
+    recs = G.ordered(T.emitted(r))
+    if len(recs) < 500:
+        raise T.MachineryError("MC_MarkupPair emitted only %d sequences" % len(recs))
+    np_mis = 0
+    for nb, rec in enumerate(recs):
+        kinds = list(rec["kinds"])
+        routes = [PAIR_ROUTES[k][(nb + j) % len(PAIR_ROUTES[k])] for j, k in enumerate(kinds)]
+        case = {"part": "pair", "kinds": kinds, "routes": routes, "ops": [{"op": h["op"], "f": h["f"]} for h in rec["ops"]]}
+        evs = run_pair(case)
+        rs = [h for h in rec["ops"] if h["op"] == "render"]
+        ctx.count()
+        ctx.nontriv(("pair", norm(case)))
+        same = len(evs) == len(rs) and all(e["res"] == "ok" and norm(e["toks"]) == norm(h["out"]) for e, h in zip(evs, rs))
+        if not same:
+            np_mis += 1
+        if not same or ctx.rng.random() < 0.1:
+            traces.append(evs)
+            cases.append(case)
+    ctx.extra["formatter_pair_sequences_replayed"] = len(recs)
+    ctx.extra["formatter_pair_sequences_not_reproduced"] = np_mis
+    for i in range(150 if quick else 3000):
+        case = random_pair(ctx.rng)
+        traces.append(run_pair(case))
+        cases.append(case)
+        ctx.count()
+        ctx.nontriv(("rndpair", i))
 
     # ---- code -> spec: seeded random messages, longer and over more styles than TLC enumerates
     n = 600 if quick else 8000
@@ -645,6 +757,8 @@ def replay_markup(case):
         return [way_event(case["way"], case["style"], case["msg"])]
     if case["part"] == "hist":
         return run_history(case)
+    if case["part"] == "pair":
+        return run_pair(case)
     return shared_formatter_trace(case["msgs"], case.get("plain", False), case.get("outputs", False))
 
 
@@ -964,17 +1078,18 @@ def random_scope_ops(rng, real, n):
 
 # ================================================================== (d) on the interpreted screen: indented ANSI sections
 def screen_base(op):
-    return {"op": op, "w": 80, "what": "", "line": [], "ind": 0, "ops": [], "res": "ok"}
+    return {"op": op, "w": 80, "dec": True, "what": "", "line": [], "ind": 0, "ops": [], "res": "ok"}
 
 
 def run_screen_case(case):
-    """case = {fmt: forced|ansistream, route: parent|section|scope, inds: [indentation per section], ops: [line(s) |
+    """case = {fmt: forced|ansistream|plain (PlainFormatter on a plain stream)|plain-ansi (PlainFormatter on a stream that
+    reports ANSI support: undecorated all the same), route: parent|section|scope, inds: [indentation per section], ops: [line(s) |
     overwrite(s) | clear(s) | clearn(s, k)]}: section outputs of ONE decorated Output; route says how a section gets its
     indentation: 'parent' - created while the parent output carries it (Output.section copies it), 'section' -
     section.indent(n) after creation, 'scope' - every operation inside `with section.indent(n)`.
     Every operation's bytes are tokenised into terminal operations (harness/engine/termbytes.py)."""
     from clikit.api.io import Output
-    from clikit.formatter import AnsiFormatter
+    from clikit.formatter import AnsiFormatter, PlainFormatter
     from clikit.io.output_stream import BufferedOutputStream
 
     from harness.engine import termbytes
@@ -986,8 +1101,13 @@ def run_screen_case(case):
         try:
             Rec = G._rec_class()
             forced = case["fmt"] == "forced"
-            rec = Rec(BufferedOutputStream(), None if forced else True)
-            parent = Output(rec, AnsiFormatter(forced=forced))
+            if case["fmt"].startswith("plain"):
+                rec = Rec(BufferedOutputStream(), True if case["fmt"] == "plain-ansi" else None)
+                parent = Output(rec, PlainFormatter())
+                evs[0]["dec"] = False
+            else:
+                rec = Rec(BufferedOutputStream(), None if forced else True)
+                parent = Output(rec, AnsiFormatter(forced=forced))
             secs = []
             for n in case["inds"]:
                 if case["route"] == "parent":
@@ -1067,6 +1187,9 @@ def screen_programs(rng, quick):
         for j in range(2 if quick else len(settings)):
             route, inds = settings[(i + j) % len(settings)]
             cases.append({"part": "screen", "fmt": "forced" if (i + j) % 3 else "ansistream", "route": route, "inds": inds, "ops": ops})
+        # the same program on an undecorated output: PlainFormatter, on a plain stream and on one that reports ANSI support
+        route, inds = settings[i % len(settings)]
+        cases.append({"part": "screen", "fmt": "plain-ansi" if i % 4 else "plain", "route": route, "inds": inds, "ops": ops})
     for i in range(150 if quick else 3000):
         nsec = rng.randint(2, 3)
         cnt, ops = [0] * nsec, []
@@ -1081,7 +1204,7 @@ def screen_programs(rng, quick):
                     k = rng.randint(1, cnt[sct - 1])
             cnt[sct - 1] = cnt[sct - 1] + 1 if name == "line" else 1 if name == "overwrite" else 0 if name == "clear" else cnt[sct - 1] - k
             ops.append({"op": name, "s": sct, "k": k})
-        cases.append({"part": "screen", "fmt": rng.choice(["forced", "ansistream"]), "route": rng.choice(["parent", "section", "scope"]),
+        cases.append({"part": "screen", "fmt": rng.choice(["forced", "ansistream", "plain-ansi", "plain"]), "route": rng.choice(["parent", "section", "scope"]),
                       "inds": [rng.choice([0, 1, 2, 3, 5]) for _ in range(nsec)], "ops": ops})
     return cases
 
